@@ -1,6 +1,7 @@
 package main
 
 import (
+	"sort"
 	"bytes"
 	"context"
 	"fmt"
@@ -39,7 +40,31 @@ var symRe = regexp.MustCompile(`[A-Za-z_][A-Za-z0-9_!.$]*`)
 func (v *Verifier) buildQuery(o *Obligation, withModel bool, refute bool) string {
 	var sb strings.Builder
 	sb.WriteString("(set-option :produce-models true)\n(set-logic ALL)\n")
-	body := strings.Join(o.Consts, "\n") + "\n" + strings.Join(o.Asserts, "\n") + "\n" + o.Goal
+	// lazily included closedness facts: only for heap symbols that are mentioned elsewhere
+	var plain []string
+	var lazy [][2]string
+	for _, a := range o.Asserts {
+		if strings.HasPrefix(a, ";;closed ") {
+			nl := strings.Index(a, "\n")
+			lazy = append(lazy, [2]string{strings.TrimPrefix(a[:nl], ";;closed "), a[nl+1:]})
+			continue
+		}
+		plain = append(plain, a)
+	}
+	body := strings.Join(o.Consts, "\n") + "\n" + strings.Join(plain, "\n") + "\n" + o.Goal
+	var included []string
+	for _, lz := range lazy {
+		if containsSym(body, lz[0]) {
+			included = append(included, lz[1])
+		}
+	}
+	for sym, f := range v.lazyGlobal {
+		if f != "" && containsSym(body, sym) {
+			included = append(included, f)
+		}
+	}
+	sort.Strings(included)
+	plain = append(included, plain...)
 	// relevant axioms: fixpoint over mentioned ghost functions
 	used := map[int]bool{}
 	text := body
@@ -81,7 +106,7 @@ func (v *Verifier) buildQuery(o *Obligation, withModel bool, refute bool) string
 		sb.WriteString(c)
 		sb.WriteByte('\n')
 	}
-	for _, a := range o.Asserts {
+	for _, a := range plain {
 		sb.WriteString("(assert " + a + ")\n")
 	}
 	sb.WriteString("; goal: " + o.Name + " :: " + strings.ReplaceAll(o.Clause, "\n", " ") + "\n")
@@ -241,7 +266,7 @@ func (v *Verifier) solveAll(obls []*Obligation, workDir string, timeoutS int, jo
 		if o.Result == "error" { // out-of-subset marker
 			continue
 		}
-		if o.Result == "detached" {
+		if o.Result == "detached" || o.Preset {
 			continue
 		}
 		wg.Add(1)
